@@ -174,18 +174,21 @@ public:
     void setParticlePositions(const double pp[]) {
         std::copy_n(pp, num_dimensions * num_particles, particle_positions.begin());
         positions_initialized = true;
+        cache_initialized = false; // the cached values belong to the old positions
     }
     //! \brief Set the particle positions, vector variant.
     void setParticlePositions(const std::vector<double> &pp) {
         checkVarSize("ParticleSwarmState::setParticlePositions", "particle position", pp.size(), num_dimensions * num_particles);
         particle_positions = pp;
         positions_initialized = true;
+        cache_initialized = false; // the cached values belong to the old positions
     }
     //! \brief Set the particle positions, with a move.
     void setParticlePositions(std::vector<double> &&pp) {
         checkVarSize("ParticleSwarmState::setParticlePositions", "particle positions", pp.size(), num_dimensions * num_particles);
         particle_positions = std::move(pp);
         positions_initialized = true;
+        cache_initialized = false; // the cached values belong to the old positions
     }
     //! \brief Set the particle velocities.
     void setParticleVelocities(const double pv[]) {
@@ -207,6 +210,7 @@ public:
     //! \brief Set the previously best known particle velocities.
     void setBestParticlePositions(const double bpp[]) {
         std::copy_n(bpp, num_dimensions * (num_particles + 1), best_particle_positions.begin());
+        cache_initialized = false; // the cached values belong to the old best positions
         std::fill(cache_best_particle_inside.begin(), cache_best_particle_inside.end(), true); // every entry holds a position
         best_positions_initialized = true;
     }
@@ -214,6 +218,7 @@ public:
     void setBestParticlePositions(const std::vector<double> &bpp) {
         checkVarSize("ParticleSwarmState::setBestParticlePositions", "best particle positions", bpp.size(), num_dimensions * (num_particles + 1));
         best_particle_positions = bpp;
+        cache_initialized = false; // the cached values belong to the old best positions
         std::fill(cache_best_particle_inside.begin(), cache_best_particle_inside.end(), true); // every entry holds a position
         best_positions_initialized = true;
     }
@@ -221,6 +226,7 @@ public:
     void setBestParticlePositions(std::vector<double> &&bpp) {
         checkVarSize("ParticleSwarmState::setBestParticlePositions", "best particle positions", bpp.size(), num_dimensions * (num_particles + 1));
         best_particle_positions = std::move(bpp);
+        cache_initialized = false; // the cached values belong to the old best positions
         std::fill(cache_best_particle_inside.begin(), cache_best_particle_inside.end(), true); // every entry holds a position
         best_positions_initialized = true;
     }
